@@ -428,6 +428,26 @@ impl Prop for C04 {
 					out.fail("C04:max-seq-size-not-enforced:ignoring-target", format!("a sequence holds {s} elements in plain (positive-count) blocks, max_seq_size is {}, deserialize_ignored_any returned Ok", lim.max_seq_size));
 					return out;
 				}
+			} else if !counts_sequences && 2 * d + 2 <= lim.allowed_depth && s <= lim.max_seq_size && (matches!(scn.path, Path::Slice) || f <= lim.max_alloc_size) {
+				// a target that ignores some (or all) of the value: what it does keep must be what was written, and the
+				// decoder must stop exactly where the value ends (skipping is decoding too)
+				out.count("valid_input_within_limits_ignoring_target", 1);
+				match &dec.res {
+					Ok(got) => {
+						if matches!(scn.target, Target::Masked(_)) && !crate::val::eq_modulo_mask(got, v) {
+							out.fail("C04:valid-input-within-limits-decodes-to-another-value:partly-ignoring-target", format!("{got:?} vs {v:?}"));
+							return out;
+						}
+						if dec.consumed != len {
+							out.fail(format!("C04:valid-input:ignoring-target-stops-at-the-wrong-place:{path_label}"), format!("consumed {} of {len} bytes", dec.consumed));
+							return out;
+						}
+					}
+					Err(e) => {
+						out.fail(format!("C04:valid-input-within-limits-rejected:ignoring-target:{path_label}"), format!("limits {lim:?}: {e}"));
+						return out;
+					}
+				}
 			} else if !counts_sequences {
 				// IgnoredAny / masked targets may skip size-prefixed blocks wholesale: no limit oracle
 				out.count("valid_input_skipping_target", 1);
